@@ -19,3 +19,7 @@ print("|---|---|---|---|---|")
 print("\n".join(rows))
 n = sum(1 for r in res.values() if r.get("exit") == 1)
 print("\n%d of %d seeded changes detected (exit 1 + VIOLATION line)." % (n, len(res)))
+bo = [sid for sid in sorted(res) if res[sid].get("exit") == 1 and all(("bounded" in v or "standin" in v or "_ground_" in v) for v in res[sid].get("violations", []))]
+print("\nDetected only at the bounded level (every VIOLATION line of the run comes from a bounded native check): " + ", ".join(bo) + ".")
+nd = [sid for sid in sorted(res) if res[sid].get("exit") != 1]
+print("\nNot detected: " + ", ".join("%s (exit %s)" % (s_, res[s_].get("exit")) for s_ in nd) + ".")
